@@ -58,11 +58,17 @@ def register(R):
             'each_callback_once_with_the_amount': implies(nz, B(bool(each) or (len(loops) == 1 and not loops[0].alts))),
         }
 
+    def ipc_iteration(l0, l1, evs):
+        # C03: "if any ... user on_progress callback raises, result() raises": an iteration that goes on to the next callback
+        # has not swallowed an exception of this one
+        return {'a_raising_progress_callback_is_not_swallowed': (B(not any(
+            e.extra.get('raised') is not None for e in evs if e.kind in ('ext', 'call'))), ['C03', 'C09'])}
+
     R.contract(
-        f'{UT}:invoke_progress_callbacks', props=['C09'],
+        f'{UT}:invoke_progress_callbacks', props=['C09', 'C03'],
         params=dict(callbacks=ListOfT(ExtT('progress_cb')), bytes_transferred=Int),
         checks=ipc_checks, raises={'Exception': only_propagates}, raise_when={'Exception': lambda c: None, 'OSError': lambda c: None},
-        loops={0: trivial_loop()},
+        loops={0: LoopSpec(invariant=lambda l: {}, iteration_checks=ipc_iteration)},
         effects=_count_reported,
     )
 
